@@ -206,9 +206,11 @@ StepEnd(e) ==
          A1 == IF e.quiescent /\ e.head >= 0 /\ \E r \in TRounds : okAt(r) # want(r) THEN Conf(e, "final store differs from the tracked store") ELSE {}
          repaired == e.returned /\ \A r \in info.reported : okAt(r)
          converged == IF sc.mode = "repair" THEN repaired ELSE ConvergedAt(e.head, TGoal)
-         cause == IF ~e.returned /\ Len(e.blocked) > 0 /\ sc.mode # "run" THEN "blocked-on-silent-stream-no-timeout"
-                  ELSE IF e.returned /\ sc.mode = "follow" THEN "no-retry-after-failed-attempt"
-                  ELSE IF e.returned /\ sc.mode = "repair" THEN "gave-up-after-retry"
+         cause == IF Len(e.blocked) > 0 /\ sc.mode = "follow" THEN "blocked-on-silent-stream-no-timeout"
+                  ELSE IF Len(e.blocked) > 0 /\ sc.mode = "repair" /\ ~e.returned THEN "blocked-on-silent-stream-no-timeout"
+                  ELSE IF sc.mode = "follow" /\ e.ret = "sync-returned-errchan-nil" THEN "no-retry-after-failed-attempt"
+                  ELSE IF sc.mode = "follow" THEN "still-failing-after-retries"
+                  ELSE IF sc.mode = "repair" THEN "gave-up-after-retry"
                   ELSE IF sc.mode = "run" THEN "budget-exhausted" ELSE "other"
          A2 == IF e.liveness /\ e.quiescent /\ THonestAhead /\ ~converged
                  THEN {Alarm("Converges", e, cause)} ELSE {}
